@@ -209,3 +209,82 @@ def normalise_function(fn, known_locals):
         return out
     fn.body = block(fn.body)
     return count[0]
+
+
+class _ReplAll(ast.NodeTransformer):
+    def __init__(self, name, value):
+        self.name = name
+        self.value = value
+
+    def visit_Name(self, n):
+        if n.id == self.name and isinstance(n.ctx, ast.Load):
+            return A.clone(self.value)
+        return n
+
+
+def _hoistable(e, stores, params, stable_attrs, receiver_names):
+    """a side-effect-free expression over names that are never re-bound in the function: comparisons, boolean combinations,
+    constant subscripts and stable attributes (hoisting such an expression into a local cannot change its value)"""
+    if isinstance(e, ast.Constant):
+        return True
+    if isinstance(e, ast.Name):
+        return (e.id in params and not stores.get(e.id)) or e.id in ("None", "True", "False")
+    if isinstance(e, ast.Attribute):
+        return isinstance(e.value, ast.Name) and e.value.id in receiver_names and e.attr in stable_attrs
+    if isinstance(e, ast.Subscript):
+        return _hoistable(e.value, stores, params, stable_attrs, receiver_names) and isinstance(e.slice, ast.Constant)
+    if isinstance(e, ast.Compare):
+        return isinstance(e, ast.Compare) and len(e.ops) == 1 and isinstance(e.ops[0], (ast.Eq, ast.NotEq, ast.Is, ast.IsNot)) and \
+            all(_hoistable(x, stores, params, stable_attrs, receiver_names) for x in [e.left] + e.comparators) and \
+            any(isinstance(x, ast.Constant) for x in [e.left] + e.comparators)
+    if isinstance(e, ast.BoolOp):
+        return all(_hoistable(x, stores, params, stable_attrs, receiver_names) for x in e.values)
+    if isinstance(e, ast.UnaryOp) and isinstance(e.op, ast.Not):
+        return _hoistable(e.operand, stores, params, stable_attrs, receiver_names)
+    return False
+
+
+def fold_aliases(fn, known_locals, stable_attrs, receiver_names=("self", "cls", "_self")):
+    """`x = self.<field>` where x is a new local stored once and <field> is never rebound outside __init__ (or is a method):
+    every load of x is replaced by self.<field> (an attribute read of a binding that cannot change is position-independent).
+    Returns the number of aliases folded."""
+    stores = {}
+    for n in ast.walk(fn):
+        if isinstance(n, ast.Name) and isinstance(n.ctx, (ast.Store, ast.Del)):
+            stores.setdefault(n.id, []).append(n)
+        elif isinstance(n, ast.ExceptHandler) and n.name:
+            stores.setdefault(n.name, []).append(n)
+        elif isinstance(n, (ast.Global, ast.Nonlocal)):
+            for x in n.names:
+                stores.setdefault(x, []).extend([n, n])
+    params = {a.arg for a in fn.args.posonlyargs + fn.args.args + fn.args.kwonlyargs}
+    count = 0
+    for st in list(ast.walk(fn)):
+        if not (isinstance(st, ast.Assign) and len(st.targets) == 1 and isinstance(st.targets[0], ast.Name)):
+            continue
+        nm = st.targets[0].id
+        v = st.value
+        if nm in known_locals or nm in params or len(stores.get(nm, [])) != 1:
+            continue
+        is_alias = isinstance(v, ast.Attribute) and isinstance(v.value, ast.Name) and v.value.id in receiver_names \
+            and v.value.id in params and v.attr in stable_attrs
+        if not is_alias and not (isinstance(v, (ast.Compare, ast.BoolOp, ast.UnaryOp, ast.Subscript)) and
+                                 _hoistable(v, stores, params, stable_attrs, receiver_names)):
+            continue
+        # the alias must be defined before its uses on every path: require the assignment to be a top-level statement
+        # of the function body (or of a block that contains every use)
+        par = getattr(st, "_parent", None)
+        uses = [n for n in ast.walk(fn) if isinstance(n, ast.Name) and n.id == nm and isinstance(n.ctx, ast.Load)]
+        if par is not fn and not all(A.contains(par, u) for u in uses):
+            continue
+        _ReplAll(nm, v).visit(fn)
+        # drop the assignment
+        for holder in ast.walk(fn):
+            for fld in ("body", "orelse", "finalbody"):
+                lst = getattr(holder, fld, None)
+                if isinstance(lst, list) and st in lst:
+                    lst.remove(st)
+                    if not lst:
+                        lst.append(ast.copy_location(ast.Pass(), st))
+        count += 1
+    return count
